@@ -28,6 +28,7 @@ type Obligation struct {
 	Src    string // source text of the clause / expression
 	Expect string // "unsat" normally; "sat" for cover obligations that must fail
 	Mode   string
+	Fuel   int
 
 	// filled by the solver stage
 	Status  string // discharged | failed | unknown | error
@@ -68,6 +69,7 @@ type Exec struct {
 	inlineDepth int
 	pathCount int
 	assumptions map[string]bool // engine-level assumptions used (reported)
+	fuel        int
 	hiddenStack []string
 	lastSpawn   map[string]Value
 	lastWrite   *SliceV
@@ -116,7 +118,7 @@ func (x *Exec) oblige(st *State, class, name string, goal Term, p token.Pos, src
 		full = fmt.Sprintf("%s~%d", full, n)
 	}
 	o := &Obligation{Name: full, Class: class, Func: x.key, Case: x.caseLbl,
-		Hyps: append([]Hyp(nil), st.pc...), Goal: goal, Decls: x.decls, Src: src, Expect: "unsat", Mode: x.mode}
+		Hyps: append([]Hyp(nil), st.pc...), Goal: goal, Decls: x.decls, Src: src, Expect: "unsat", Mode: x.mode, Fuel: x.fuel}
 	if p.IsValid() {
 		o.Pos = x.pos(p)
 	}
@@ -511,11 +513,10 @@ func (x *Exec) evalBinary(st *State, e *ast.BinaryExpr) Value {
 		} else {
 			sub.assume(Not(l), "guard")
 		}
-		nob := len(x.obls)
+		base := len(sub.pc)
 		r := asTerm(x.eval(sub, e.Y))
-		_ = nob
 		// propagate type-invariant assumptions made while evaluating the right operand, guarded
-		for _, h := range sub.pc[len(st.pc)+1:] {
+		for _, h := range sub.pc[base:] {
 			if e.Op == token.LAND {
 				st.assume(Implies(l, h.T), h.Label)
 			} else {
@@ -591,7 +592,9 @@ func (x *Exec) arith(st *State, op token.Token, l, r Term, lt, rt types.Type, at
 			return Mul(l, r)
 		case token.QUO:
 			// IEEE division by zero yields Inf/NaN: flagged as a side obligation (NaN discipline, C16)
-			x.check(st, "fp", "safe/fp/div", Neq(r, RatTerm(new(big.Rat))), at.Pos(), "float divisor != 0")
+			// NaN discipline (C16): 0/0 never happens. x/0 with x != 0 is +-Inf in IEEE arithmetic; R-mode leaves its
+			// value unconstrained, so posts over such a quotient must be stated conditionally.
+			x.check(st, "fp", "safe/fp/div", Or(Neq(r, RatTerm(new(big.Rat))), Neq(l, RatTerm(new(big.Rat)))), at.Pos(), "no 0/0: float divisor != 0 or numerator != 0")
 			return RDiv(l, r)
 		}
 		fail("float operator %s at %s", op, x.pos(at.Pos()))
